@@ -22,7 +22,11 @@ RULE = ('(a) Rule-based state machine: a byte stream (valid encodings, cut-short
         'prefix P the messages produced so far must be parse_all(P) (fresh parser, all at once); retrievals hand them out '
         'FIFO, pending()==produced-retrieved, get_message() is None exactly when that is 0, total == parse_all(stream). '
         'Non-trivial = a cut strictly inside a message that is later yielded and a retrieval between two feeds; distinct by '
-        '(stream, ops).')
+        '(stream, ops).'
+        ' Later additions: streams assembled from segments whose yield is known by construction (whole message,'
+        ' message cut short, stray bytes, lone F7, undefined status) fed one chunk per segment in cycling'
+        ' container types; two feeder threads on a ParserQueue under the scheduler; a bystander instance; 70 000'
+        ' pending messages / a 70 000-byte sysex with expectations known by construction.')
 ASSUMPTIONS = ['parse_all on the whole stream is itself held to C04/C06',
                'whether messages fed from inside a running for-loop are delivered by that loop or by the next retrieval '
                'is not fixed by the statement; only order, completeness and pending() are asserted']
